@@ -401,6 +401,12 @@ pub fn debug_dump(path: &str) {
                 println!("span = {:?}", s.sol_span());
             }
             println!("ode calls {} (in jac {}) jac calls {} ev calls {}", o.st.ode_calls, o.st.ode_calls_in_jac, o.st.jac_calls, o.st.ev_calls);
+            if std::env::var_os("VERIF_DUMP_TAIL").is_some() {
+                let n = o.st.odes.len();
+                for r in o.st.odes.iter().skip(n.saturating_sub(30)) {
+                    println!("  ode seq {} t {:e} y {:?} out {:?} faulted {}", r.seq, r.t, &o.st.arena[r.off..r.off + sc.prob.dim()], &o.st.arena[r.off + sc.prob.dim()..r.off + 2 * sc.prob.dim()], r.faulted);
+                }
+            }
             for r in o.st.odes.iter().take(40) {
                 println!("  ode seq {} t {:e} y {:?} injac {} faulted {}", r.seq, r.t, &o.st.arena[r.off..r.off + sc.prob.dim()], r.in_jac, r.faulted);
             }
